@@ -500,6 +500,32 @@ def _model_inputs(model, env_inputs):
     return vals
 
 
+def _grid_model(hyps, g, ctx, env, qs, step=16, timeout_ms=6000):
+    """a model of hyps and not g in which every real input symbol and every random draw is k/step for an integer k"""
+    try:
+        names = []
+        for name, (shape, kind) in (env.inputs.items() if env is not None else []):
+            if kind != "real":
+                continue
+            if shape == ():
+                names.append(z3.Real(name))
+            else:
+                names += [z3.Real(name + "".join("_%d" % i for i in idx)) for idx in np.ndindex(*shape)]
+        for kind, shape, vs, extra in ctx.rand_calls:
+            if kind != "perm":
+                names += [v for v in vs if isinstance(v, z3.ExprRef) and z3.is_real(v)]
+        if not names or len(names) > 400:
+            return None
+        extra = []
+        for i, v in enumerate(names):
+            k = z3.Int("grid!%d" % i)
+            extra.append(v * step == z3.ToReal(k))
+        verdict, model, _ = smt.check_sat(list(hyps) + [z3.Not(g)] + extra, timeout_ms, qs)
+        return model if verdict == "sat" else None
+    except z3.Z3Exception:
+        return None
+
+
 def _model_rand(model, ctx):
     calls = []
     for kind, shape, vs, extra in ctx.rand_calls:
@@ -543,6 +569,116 @@ def replay_case(case, values, rand_calls, slack=1e-7):
     return out
 
 
+class _RemoteExc(Exception):
+    pass
+
+
+class Replayer:
+    """Replays run in a process forked BEFORE the symbolic exploration of the case (and in a fresh fork of it per replay):
+    module-level state of the code under test (memo tables, lru_caches, class attributes) that the exploration -- or an
+    earlier replay -- filled with symbolic or stale values never reaches a replay."""
+
+    def __init__(self, case):
+        import pickle
+        self.pickle = pickle
+        self.req_r, self.req_w = os.pipe()
+        self.res_r, self.res_w = os.pipe()
+        self.pid = os.fork()
+        if self.pid == 0:
+            try:
+                os.close(self.req_w)
+                os.close(self.res_r)
+                self._serve(case)
+            finally:
+                os._exit(0)
+        os.close(self.req_r)
+        os.close(self.res_w)
+
+    @staticmethod
+    def _read(fd):
+        import struct
+        hdr = b""
+        while len(hdr) < 8:
+            c = os.read(fd, 8 - len(hdr))
+            if not c:
+                return None
+            hdr += c
+        n = struct.unpack("<Q", hdr)[0]
+        buf = b""
+        while len(buf) < n:
+            c = os.read(fd, min(1 << 20, n - len(buf)))
+            if not c:
+                return None
+            buf += c
+        return buf
+
+    @staticmethod
+    def _write(fd, data):
+        import struct
+        os.write(fd, struct.pack("<Q", len(data)))
+        view = memoryview(data)
+        while len(view):
+            k = os.write(fd, view[: 1 << 16])
+            view = view[k:]
+
+    def _serve(self, case):
+        while True:
+            raw = self._read(self.req_r)
+            if raw is None:
+                return
+            values, rand, slack = self.pickle.loads(raw)
+            r, w = os.pipe()
+            pid = os.fork()
+            if pid == 0:
+                try:
+                    os.close(r)
+                    try:
+                        rp = replay_case(case, values, rand, slack)
+                        e = rp["exc"]
+                        out = dict(exc=None if e is None else (type(e).__name__, str(e)[:2000]), obs=_short(rp["obs"], 2000),
+                                   goals=rp["goals"], diverged=rp["diverged"], nonfinite=rp["nonfinite"], goal_exc=rp.get("goal_exc", ""))
+                    except BaseException as e2:  # harness trouble
+                        out = dict(harness=repr(e2))
+                    self._write(w, self.pickle.dumps(out))
+                finally:
+                    os._exit(0)
+            os.close(w)
+            data = self._read(r)
+            os.close(r)
+            try:
+                os.waitpid(pid, 0)
+            except OSError:
+                pass
+            self._write(self.res_w, data if data is not None else self.pickle.dumps(dict(harness="replay process died")))
+
+    def replay(self, values, rand, slack):
+        self._write(self.req_w, self.pickle.dumps((values, rand, slack)))
+        raw = self._read(self.res_r)
+        if raw is None:
+            raise RuntimeError("replayer died")
+        out = self.pickle.loads(raw)
+        if "harness" in out:
+            raise RuntimeError(out["harness"])
+        if out["exc"] is not None:
+            nm, msg = out["exc"]
+            out["exc"] = type(nm, (_RemoteExc,), {})(msg)
+        return out
+
+    def close(self):
+        for fd in (self.req_w, self.res_r):
+            try:
+                os.close(fd)
+            except OSError:
+                pass
+        try:
+            os.waitpid(self.pid, 0)
+        except OSError:
+            pass
+
+
+_REPLAYER = [None]
+
+
 def _has_nonfinite(o):
     if isinstance(o, float):
         return o != o or o in (math.inf, -math.inf)
@@ -560,6 +696,21 @@ def _short(x, n=300):
 
 def run_case(case, cfg):
     """-> report dict (picklable)"""
+    rpl = None
+    try:
+        rpl = Replayer(case)
+    except OSError:
+        rpl = None
+    _REPLAYER[0] = rpl
+    try:
+        return _run_case(case, cfg)
+    finally:
+        _REPLAYER[0] = None
+        if rpl is not None:
+            rpl.close()
+
+
+def _run_case(case, cfg):
     t_start = time.time()
     qs = smt.QStats()
     est = Stats()
@@ -735,6 +886,16 @@ def run_case(case, cfg):
                 viol = _confirm(case, gname, model, ctx, env, goal_index=gi, cfg=cfg,
                                 obligation=gname.startswith("defined["))
                 rep["replays"] += 1
+                if not viol["reproduced"] and isinstance(g, z3.ExprRef) and not viol.get("reproduced_as_exception"):
+                    # the solver's witness may sit on a knife edge (a != b answered with |a-b| = 1e-18, lost in float
+                    # rounding): ask once more for a witness whose real inputs and draws lie on the grid Z/16
+                    m2 = _grid_model(hyps, g, ctx, env, qs)
+                    if m2 is not None:
+                        v2 = _confirm(case, gname, m2, ctx, env, goal_index=gi, cfg=cfg, obligation=gname.startswith("defined["))
+                        rep["replays"] += 1
+                        if v2["reproduced"]:
+                            v2["detail"] += " (witness on the grid Z/16)"
+                            viol = v2
                 rep["violations"].append(viol)
     n_live = sum(rep["path_status"].get(k, 0) for k in ("ok", "raised"))
     if n_live and not reached and not rep["gaps"] and rep["path_status"].get("vacuous", 0) >= n_live:
@@ -846,7 +1007,10 @@ def _confirm(case, gname, model, ctx, env, goal_index=None, exc=None, tb=None, c
     viol = dict(goal=gname, inputs=values, rand=[(k, list(s), v) for k, s, v in rand], reproduced=False,
                 detail="", case=case.name, family=case.family)
     try:
-        rp = replay_case(case, values, rand, cfg.get("replay_slack", 1e-7))
+        if _REPLAYER[0] is not None:
+            rp = _REPLAYER[0].replay(values, rand, cfg.get("replay_slack", 1e-7))
+        else:
+            rp = replay_case(case, values, rand, cfg.get("replay_slack", 1e-7))
     except Exception as e:  # harness trouble during replay
         viol["detail"] = "replay harness error: %r" % (e,)
         return viol
